@@ -33,7 +33,7 @@ def run(pid, rep, key=None):
         ran = False; hit = False; outs = []
         # std HashMap iteration order is random per process: allocation-dependent witnesses may need several runs
         for attempt in range(int(rep.get('retries', 1))):
-            rc, out = cargo_test('verif_replay', {'VERIF_REPLAY_FILE': path})
+            rc, out = cargo_test('verif_replay_broker', {'VERIF_REPLAY_FILE': path})
             lines = [l[l.index('VERIF-REPLAY:'):] for l in out.splitlines() if 'VERIF-REPLAY:' in l]
             outs = lines
             if any('done' in l for l in lines) or any('violated' in l for l in lines): ran = True
